@@ -99,6 +99,19 @@ example :
     let s := run (init { mtu := 1200, maxPayload := 1168 } 100 65536) [.openS 1 false 0 0 0, .write 1 53 2000]
     ((gather s freeOracle [0, 0]).2.packets.map (marshalLen false)) = [1196, 860] := by decide
 
+/-- **Retransmission window.** Whatever the state and the oracles, the user bytes `getDataPacketsToRetransmit` puts
+back on the wire in one gather are at most `min(cwnd, rwnd)`, or that gather retransmits exactly one chunk (the probe of
+the earliest outstanding chunk, allowed when the peer window is smaller than it). -/
+theorem C10_retransmit_window (s : St) (orc : Oracle) :
+    (sumLen (gatherRtx s orc).2.1 : Int) ≤ ((min32 s.cwnd s.rwnd).toNat : Int) ∨ (gatherRtx s orc).2.1.length = 1 :=
+  gatherRtx_window s orc
+
+/-- non-vacuity: after a T3 expiry (cwnd back to one MTU) only the first of three outstanding chunks is retransmitted -/
+example :
+    let s := run (init { mtu := 1200, maxPayload := 1172 } 100 65536)
+      [.openS 1 false 0 0 0, .write 1 53 3000, .gather freeOracle [0, 0, 0], .t3]
+    ((gatherRtx s freeOracle).2.1.map (·.len), (min32 s.cwnd s.rwnd).toNat) = ([1172], 1200) := by decide
+
 /-- **Fragments.** The exact arithmetic the sender relies on, on the generated size functions: a chunk with at most
 `maxPayloadSizeForMTU(mtu, interleaving)` user bytes, padded, fits behind the 12-byte common header in one MTU;
 and every chunk an accepted write queues carries between 1 and `maxPayloadSize` bytes (larger messages are
